@@ -179,6 +179,15 @@ def from_blackbird_to_tdm(bb: blackbird.BlackbirdProgram) -> TDMProgram:
     return prog
 
 
+def _tdm_array(values):
+    """Returns the values of a time-domain parameter as a 2D array; numeric where possible
+    (object arrays cannot be serialized), object only for ragged or symbolic values."""
+    try:
+        return np.array([values])
+    except ValueError:
+        return np.array([values], dtype=object)
+
+
 def to_blackbird(prog: Program, version: str = "1.0") -> blackbird.BlackbirdProgram:
     """Convert a Strawberry Fields Program to a Blackbird Program.
 
@@ -272,7 +281,7 @@ def to_blackbird(prog: Program, version: str = "1.0") -> blackbird.BlackbirdProg
         )
         bb._var.update(
             {
-                f"{p.name}": np.array([prog.tdm_params[i]], dtype=object)
+                f"{p.name}": _tdm_array(prog.tdm_params[i])
                 for i, p in enumerate(prog.loop_vars)
             }
         )
